@@ -57,6 +57,21 @@ Proof. unfold x_in_members. rewrite existsb_map_fn. reflexivity. Qed.
 Lemma px_lt_len_ok (l : list xval) : exists b, px_lt (XPlain (PNum (NInt (lenZ' l)))) (xzint 11) = Ok b.
 Proof. unfold px_lt, xzint. cbn [x_base]. unfold py_lt. cbn [as_num]. eauto. Qed.
 
+Lemma mapM_is_member E x (decl : list (pystr * pyval)) :
+  mapM (px_is_member x) (map (member_of E) decl) = Ok (map (fun m => x_same_member x (member_of E m)) decl).
+Proof.
+  induction decl as [|m t IH]; [reflexivity|].
+  cbn [map mapM]. rewrite IH. unfold member_of at 1. cbn [px_is_member bind]. reflexivity.
+Qed.
+
+(* any(value is v for v in self._valid_enum_values): the candidate IS one of the declared members *)
+Lemma any_is_declared E x (decl : list (pystr * pyval)) :
+  px_any_is x (XList (map (member_of E) decl)) = Ok (is_declared_member E decl x).
+Proof.
+  unfold px_any_is, is_declared_member. cbn [px_seq_items bind]. rewrite mapM_is_member. cbn [bind].
+  rewrite existsb_map_fn. reflexivity.
+Qed.
+
 Lemma generated_validate_mx re E decl x :
   is_cand x = true ->
   Enum__validate_mx re (enum_self E decl) x = mx_validate E decl x.
@@ -64,19 +79,23 @@ Proof.
   intros Hc. unfold Enum__validate_mx, mx_validate.
   rewrite self_is_enum, self_valid. cbn [px_truthy py_truthy bind].
   unfold px_setcomp_attr, px_listcomp_attr. cbn [px_seq_items bind]. rewrite mapM_names. cbn [bind].
+  rewrite any_is_declared.
   fold (x_is_str x).
   unfold py_and, py_not. cbn [bind].
+  assert (Htail :
+             (c <- (t5 <- px_len (XList (map (fun m : pystr * pyval => XPlain (PStr (fst m))) decl)) ;; px_lt t5 (xzint 11)) ;;
+              if c then Raise ValueError else Raise ValueError) = (Raise ValueError : res unit)).
+  { cbn [px_len bind].
+    destruct (px_lt_len_ok (map (fun m : pystr * pyval => XPlain (PStr (fst m))) decl)) as [b Hb].
+    rewrite Hb. cbn [bind]. destruct b; reflexivity. }
   destruct (x_is_str x) eqn:Hs.
-  - unfold px_in_dyn at 1. rewrite (is_str_hashable x Hc Hs). rewrite in_names_eq. cbn [bind andb].
-    destruct (x_in_names x (decl_names decl)); cbn [negb bind andb]; [reflexivity|].
-    unfold px_in_dyn. rewrite in_members_eq.
-    destruct (x_in_members E x decl); cbn [negb bind]; [reflexivity|].
-    cbn [px_len bind]. destruct (px_lt_len_ok (map (fun m : pystr * pyval => XPlain (PStr (fst m))) decl)) as [b Hb].
-    rewrite Hb. cbn [bind]. destruct b; reflexivity.
-  - cbn [bind negb andb]. unfold px_in_dyn. rewrite in_members_eq.
-    destruct (x_in_members E x decl); cbn [negb bind]; [reflexivity|].
-    cbn [px_len bind]. destruct (px_lt_len_ok (map (fun m : pystr * pyval => XPlain (PStr (fst m))) decl)) as [b Hb].
-    rewrite Hb. cbn [bind]. destruct b; reflexivity.
+  - destruct (px_is_enum_member x); cbn [negb bind andb].
+    + destruct (is_declared_member E decl x); cbn [negb bind]; [reflexivity | exact Htail].
+    + unfold px_in_dyn at 1. rewrite (is_str_hashable x Hc Hs). rewrite in_names_eq. cbn [bind andb].
+      destruct (x_in_names x (decl_names decl)); cbn [negb bind andb]; [reflexivity|].
+      destruct (is_declared_member E decl x); cbn [negb bind]; [reflexivity | exact Htail].
+  - cbn [bind negb andb].
+    destruct (is_declared_member E decl x); cbn [negb bind]; [reflexivity | exact Htail].
 Qed.
 
 Theorem generated_enum_set_mx re E decl x :
